@@ -127,8 +127,8 @@ class T2Any(object):
             return b'\x00'
         return None
 
-    def view(self, budget):
-        """everything a reader that loads 16 bytes at a time in ascending order obtains with `budget`
+    def view(self, budget, limit=300000):
+        """everything (up to `limit` bytes) a reader that loads 16 bytes at a time in ascending order obtains with `budget`
         commands (None = unlimited), and the number of commands that takes; stops at the first
         command that is not answered with 16 bytes.  Independent of the code under test: READ of
         page 4k, preceded by the two SECTOR SELECT packets at every 1 KiB boundary."""
@@ -136,7 +136,7 @@ class T2Any(object):
         used = 0
         index = 0
         sector = 0
-        while len(out) < 300000:
+        while len(out) < limit:
             if index >> 10 != sector:
                 if not self.sectors:
                     break
@@ -148,7 +148,7 @@ class T2Any(object):
                     break
             if budget is not None and used + 1 > budget:
                 break
-            d = self.page16(sector * 256 + ((index >> 2) % 256)) if True else None
+            d = self.page16(sector * 256 + ((index >> 2) % 256))
             used += 1
             if d is None or len(d) != 16:
                 break
